@@ -95,6 +95,13 @@ Reinit(ret, es2) == /\ phase = "fresh" /\ es' = es2
                     /\ IF es = 2 THEN ret = 0 /\ es2 = 2 ELSE ret = 1 /\ es2 <= es      \* (a context in the fatal state refuses every call)
                     /\ UNCHANGED <<prepT, prepD, prepL, phase, atStart>>
 
+\* the bytes behind the descriptor are replaced by another file of the same layout (same checksum type, same lengths,
+\* another header checksum) while the context and its pins stay: a pinned digest that was the file's is now another one
+Swap == /\ phase = "fresh"
+        /\ prepD' = IF prepD = "file" THEN "other" ELSE prepD
+        /\ atStart' = TRUE                      \* (the caller rewinds the descriptor)
+        /\ UNCHANGED <<prepT, prepL, es, phase>>
+
 \* ---- what the property promises
 \* a lead accepted under pinning carries exactly the pinned values
 AcceptedImpliesEqual == phase \in {"lead", "open"} => Matches
